@@ -388,6 +388,20 @@ def verify_function(contract, timeout_ms=None, want_models=True):
             pending.extend(vm._pending)
     except OutOfSubset as e:
         res.status, res.reason = 'out_of_reach', 'out of subset: %s' % e
+        # obligations met before the code left the subset sit on feasible path prefixes: one that is *refuted* is a genuine
+        # refutation and is reported (tagged); proved ones prove nothing about the whole function and are not counted
+        try:
+            axioms = [a for a in [contract.str_distinct_axiom()] if a is not None] + list(contract.rep_axioms())
+            for i, ob in enumerate(vm.obligations):
+                if ob.kind not in ('post', 'call'):
+                    continue
+                discharge(ob, axioms, min(timeout_ms, 10000), contract, want_models)
+                if ob.verdict == 'refuted':
+                    res.obligations.append({'name': '%s/%s#%d [met before the function left the verified subset]' % (contract.name, ob.name, i),
+                                            'kind': ob.kind, 'line': ob.line, 'verdict': ob.verdict, 'backend': ob.backend,
+                                            'time_s': round(ob.time, 4), 'model': ob.model})
+        except Exception:
+            pass
         res.wall = time.time() - t_start
         return res
     except RecursionError:
